@@ -7,6 +7,7 @@ import (
 	"sort"
 	"strings"
 	"time"
+	"unicode/utf8"
 
 	"github.com/emersion/go-webdav/verifharness/fw"
 )
@@ -1030,4 +1031,165 @@ func runLargeListUniverse(c *fw.Ctx, deal func() bool) {
 		}
 	}
 	c.Note("universe_e", fmt.Sprintf("large lists: lengths %v x patterns %v x GOMAXPROCS %v x %d repetitions", largeLengths, largePatterns, procs, reps))
+}
+
+// ---------------------------------------------------------------------------
+// (f) text-match universe: needles placed everywhere in values with TEXT
+// escapes, list commas, semicolons, empty / non-ASCII / mixed-case content
+// ---------------------------------------------------------------------------
+
+var fValues = []string{
+	"WORK,HOME", "WORK,HOME,TRAVEL", "Work,home", `a\, b`, `a\; b`, `back\\slash`, `line1\nline2`, `line1\Nline2`,
+	"x;y;z", "", "plain text", `one\,still one,two`, "trail,", ",lead", "Résumé,Café", "MiXeD Case",
+	`p\,q,r\;s,t\\u`, "Lunch, then coffee",
+}
+
+// runeSubstrings: all substrings of s of 1..maxRunes runes, cut at rune
+// boundaries (so every needle is valid UTF-8 and survives JSON).
+func runeSubstrings(s string, maxRunes int, into map[string]bool) {
+	var idx []int
+	for i := range s {
+		idx = append(idx, i)
+	}
+	idx = append(idx, len(s))
+	for a := 0; a < len(idx)-1; a++ {
+		for b := a + 1; b < len(idx) && b-a <= maxRunes; b++ {
+			into[s[idx[a]:idx[b]]] = true
+		}
+	}
+}
+
+// needlesFor: every placement of a needle relative to value v.
+func needlesFor(v string) []string {
+	set := map[string]bool{"": true, "zz": true, v: true}
+	runeSubstrings(v, 5, set)
+	r := &refEval{ood: map[string]int{}, amb: map[string]int{}}
+	for _, reading := range propTextCandidates(v, r) {
+		for _, h := range reading {
+			set[h] = true
+			runeSubstrings(h, 5, set)
+		}
+	}
+	// ASCII case variants of the short ones
+	for n := range set {
+		if utf8.RuneCountInString(n) <= 3 {
+			if u := strings.ToUpper(n); utf8.ValidString(u) {
+				set[u] = true
+			}
+			if l := strings.ToLower(n); utf8.ValidString(l) {
+				set[l] = true
+			}
+		}
+	}
+	out := make([]string, 0, len(set))
+	for n := range set {
+		out = append(out, n)
+	}
+	sort.Strings(out)
+	return out
+}
+
+// needlePlacement classifies a needle for the evidence tables.
+func needlePlacement(v, needle string) string {
+	r := &refEval{ood: map[string]int{}, amb: map[string]int{}}
+	readings := propTextCandidates(v, r)
+	if readings == nil {
+		return "malformed escape"
+	}
+	switch r.textVerdict(TextMatch{Text: needle}, readings) {
+	case triU:
+		return "readings disagree (spans escape / item boundary, or case variant)"
+	case triF:
+		return "absent under every reading"
+	}
+	if len(readings) == 3 {
+		items := readings[2]
+		if len(items) > 1 && !strings.Contains(items[0], needle) {
+			return "within a 2nd+ list item (all readings contain)"
+		}
+		if len(items) > 1 {
+			return "within the 1st list item (all readings contain)"
+		}
+	}
+	return "contained under every reading"
+}
+
+func runTextUniverse(c *fw.Ctx, deal func() bool) {
+	type pk struct {
+		name   string
+		params []Param
+	}
+	props := []pk{{"SUMMARY", nil}, {"CATEGORIES", nil}, {"RESOURCES", nil}, {"X-A", nil}, {"X-A", []Param{{Name: "VALUE", Vals: []string{"TEXT"}}}}}
+	n := 0
+	for _, v := range fValues {
+		needles := needlesFor(v)
+		for _, needle := range needles {
+			place := needlePlacement(v, needle)
+			for _, neg := range []bool{false, true} {
+				for _, p := range props {
+					if !deal() {
+						continue
+					}
+					n++
+					cal := vcal(Comp{Name: "VEVENT", Props: []Prop{rawProp("UID", "t1"), rawProp(p.name, v, p.params...)}})
+					f := CompFilter{Name: "VCALENDAR", Comps: []CompFilter{{Name: "VEVENT",
+						Props: []PropFilter{{Name: p.name, Text: &TextMatch{Text: needle, Negate: neg}}}}}}
+					o := execMatch(c, Case{Op: "match", Universe: "f:text-match (exhaustive)", Filter: &f, Object: &cal})
+					res := o.Class
+					if failing(res) {
+						res = "deviates"
+					}
+					c.Observe("f_text_match_needle_placement", place+" / "+res, 1)
+				}
+			}
+		}
+	}
+	// parameter values: single-valued, and as the 2nd value of a multi-valued parameter
+	for _, v := range []string{"Doe, John", "a;b:c", "Alice", "MiXeD", "Äö ü", `quo"te`} {
+		set := map[string]bool{"": true, "zz": true, v: true}
+		runeSubstrings(v, 4, set)
+		for nd := range set {
+			if utf8.RuneCountInString(nd) <= 2 {
+				set[strings.ToUpper(nd)] = true
+				set[strings.ToLower(nd)] = true
+			}
+		}
+		var needles []string
+		for nd := range set {
+			if utf8.ValidString(nd) {
+				needles = append(needles, nd)
+			}
+		}
+		sort.Strings(needles)
+		for _, needle := range needles {
+			for _, neg := range []bool{false, true} {
+				for _, multi := range []bool{false, true} {
+					if !deal() {
+						continue
+					}
+					n++
+					vals := []string{v}
+					if multi {
+						vals = []string{"first", v}
+					}
+					cal := vcal(Comp{Name: "VEVENT", Props: []Prop{rawProp("ATTENDEE", "mailto:a@example.com", Param{Name: "CN", Vals: vals})}})
+					f := CompFilter{Name: "VCALENDAR", Comps: []CompFilter{{Name: "VEVENT",
+						Props: []PropFilter{{Name: "ATTENDEE", Params: []ParamFilter{{Name: "CN", Text: &TextMatch{Text: needle, Negate: neg}}}}}}}}
+					o := execMatch(c, Case{Op: "match", Universe: "f:text-match (exhaustive)", Filter: &f, Object: &cal})
+					res := o.Class
+					if failing(res) {
+						res = "deviates"
+					}
+					form := "single-valued parameter"
+					if multi {
+						form = "2nd value of a multi-valued parameter"
+					}
+					c.Observe("f_text_match_parameter", form+" / "+res, 1)
+				}
+			}
+		}
+	}
+	if n > 0 {
+		c.Note("universe_f", fmt.Sprintf("text-match: %d property values x all needle placements x negate x 5 properties, plus parameter values", len(fValues)))
+	}
 }
